@@ -212,11 +212,10 @@ Lemma prune_blocks_hc : forall d kh e cnt n carry, Forall hc_free carry ->
 Proof.
   induction cnt; simpl; intros n carry Hc; [constructor|].
   destruct (find_num n (d_fam d FSU)) as [sb|]; [|constructor].
-  specialize (IHcnt (n + 1) [] ltac:(constructor)).
-  destruct (prune_blocks d kh e (n + 1) cnt []) as [r ok]. simpl in *. constructor; auto.
-  apply Forall_app. split; auto. apply Forall_app. split.
-  - destruct (n + 1 =? e); repeat constructor; discriminate.
-  - constructor; [simpl; split; discriminate|]. destruct kh; repeat constructor; discriminate.
+  specialize (IHcnt (n + 1) [WDel FHashNum n (b_id sb)] ltac:(repeat constructor; discriminate)).
+  destruct (prune_blocks d kh e (n + 1) cnt [WDel FHashNum n (b_id sb)]) as [r ok]. simpl in *. constructor; auto.
+  apply Forall_app. split; auto.
+  constructor; [simpl; split; discriminate|]. destruct kh; repeat constructor; discriminate.
 Qed.
 
 Lemma prune_plan_shape : forall W d kh e,
